@@ -2,6 +2,7 @@ import AranyaV.Props.C01
 import AranyaV.Props.C09
 import AranyaV.Props.C04b
 import AranyaV.Props.C03b
+import AranyaV.Proofs.TrxFacts
 /-!
 # C01 (second part) — `replicas_converge`, end to end
 
@@ -25,13 +26,17 @@ command set (of one replica; they transfer): `MergePrio` (merges and only merges
 `Priority::Merge`), `MergesOk` (every stored merge joins two incomparable commands and its own braid
 succeeded — what `add_merge` enforces; this is where "no ParallelFinalize at a stored merge" enters).
 A failing braid *of the heads* is allowed: then both replicas report the same error.
-Not proved here: that the `facts` field the transaction model stores at commit equals `factsOf` over
-whole histories (G2's store invariant does not tie the model's stored per-command states to
-`stateAt`).  It is given per commit instead: `Trx.commit_facts_eq_factsOf` under the hypothesis
-`StoredOK` (stored states = reference states), and `committed_facts_converge` concludes
-`st₁.facts = st₂.facts` from it.  The storage clause takes "the segment store holds the listing"
-(`Segments.Abs`) as a hypothesis; `abs_ren` + `abs_graphOf` discharge it for every built store once an
-injective address assignment for its locations is given (done in the example).
+`replicas_converge_facts` removes the per-commit hypothesis and `MergesOk`: by the strengthened
+invariant of `Proofs.TrxFacts` (`ClientInv'`, preserved by every step of the client LTS: init,
+add_single accept/reject, add_merge, flush, commit ok/err, action) every stored state is `stateAt`,
+every stored merge was accepted by its own braid and `st.facts = factsOf`, so for ANY two histories
+with `Perm` listings `st₁.facts = st₂.facts`.  What remains is `PolicyPrio` on the commands (a
+statement about the policy: it gives `Priority::Merge` to merges and only to them — `Spec.Cmd` carries
+the priority as data, so it is pointwise on commands) and `MergeAnti` (every merge command joins two
+incomparable commands: NOT checked by `add_merge`, in the model or in the runtime, hence not derivable
+from the LTS; honest clients only merge antichains of heads).  The storage clause takes "the segment
+store holds the listing" (`Segments.Abs`) as a hypothesis; `abs_ren` + `abs_graphOf` discharge it for
+every built store once an injective address assignment for its locations is given (done in the example).
 -/
 namespace AranyaV.Spec
 open AranyaV.Gen
@@ -162,102 +167,6 @@ theorem heads_frontier {g : Graph} (hw : WF g) (hne : g ≠ []) : Heads g (front
       exact absurd (tip_reach (AranyaV.Trx.mem_frontier.mp ha).2 hr) hne'
 
 end AranyaV.Spec
-
-/-! ## what one `commit` stores -/
-namespace AranyaV.Trx
-open AranyaV.Spec AranyaV.Gen
-
-/-- the stored per-command states of a listing are the reference states -/
-def StoredOK (g : List SCmd) : Prop := ∀ c ∈ g, stateAt (cmds g) c.cmd.id = .ok c.st
-
-theorem applyOrderFx_fst (g : Graph) (order : List Nat) (s : Facts) :
-    (applyOrderFx g order s).1 = applyOrder g order s := by
-  unfold applyOrderFx applyOrder
-  suffices ∀ (acc : Facts × List (Nat × Nat)),
-      (order.foldl (fun (acc : Facts × List (Nat × Nat)) i => match g.find? i with
-        | some c => let r := rule c acc.1; (r.1, acc.2 ++ r.2.2.map (fun n => (i, n)))
-        | none => acc) acc).1 =
-      order.foldl (fun acc i => match g.find? i with
-        | some c => (rule c acc).1
-        | none => acc) acc.1 from this (s, [])
-  induction order with
-  | nil => intro acc; rfl
-  | cons i rest ih =>
-    intro acc
-    simp only [List.foldl_cons]
-    rw [ih]
-    cases g.find? i <;> rfl
-
-theorem stateOf_stored {g : List SCmd} (h : StoredOK g) {i : Nat} {s : Facts} (hs : stateOf g i = some s) :
-    stateAt (cmds g) i = .ok s := by
-  unfold stateOf at hs
-  cases hf : g.find? (fun c => c.cmd.id == i) with
-  | none => rw [hf] at hs; cases hs
-  | some c =>
-    rw [hf] at hs
-    simp only [Option.map_some, Option.some.injEq] at hs
-    have hm := List.mem_of_find?_eq_some hf
-    have hi : c.cmd.id = i := by simpa using List.find?_some hf
-    rw [← hi, ← hs]; exact h c hm
-
-/-- one commit: if the stored states of the committed listing are the reference states, the `facts` the
-commit stores is `factsOf` of the new head set -/
-theorem commit_facts_eq_factsOf {st st' : Store} {t : Trx} {sink sink' : List SinkEv}
-    (h : commit (some st) t sink = (some st', sink', .ok true))
-    (hok : StoredOK (st.graph ++ (flushT t).written)) :
-    factsOf (cmds st'.graph) st'.heads = .ok st'.facts := by
-  unfold commit at h
-  cases ho : t.offset with
-  | none => simp [ho] at h
-  | some o =>
-    simp only [ho] at h
-    by_cases h1 : o ≠ st.stamp
-    · simp [h1] at h
-    · simp only [h1, if_false] at h
-      by_cases h2 : flushErr t = true
-      · simp [h2] at h
-      · simp only [h2, Bool.false_eq_true, if_false] at h
-        by_cases h3 : (flushT t).heads.isEmpty = true
-        · simp [h3] at h
-        · simp only [h3, Bool.false_eq_true, if_false] at h
-          split at h
-          · rename_i hd hhs
-            cases hs' : stateOf (st.graph ++ (flushT t).written) hd with
-            | none => simp [hs'] at h
-            | some s =>
-              simp only [hs', Prod.mk.injEq, Option.some.injEq] at h
-              obtain ⟨rfl, _, _⟩ := h
-              simp only [hhs, factsOf]
-              exact stateOf_stored hok hs'
-          · rename_i hne
-            cases hb : braidFacts (st.graph ++ (flushT t).written) (List.foldl hsPush [] (flushT t).heads) with
-            | error e' => simp [hb] at h
-            | ok r =>
-              obtain ⟨s, fx⟩ := r
-              simp only [hb, Prod.mk.injEq, Option.some.injEq] at h
-              obtain ⟨rfl, _, _⟩ := h
-              simp only
-              unfold braidFacts at hb
-              unfold factsOf
-              split
-              · rename_i hd hhs; exact absurd hhs (hne hd)
-              · cases hr : refBraid (cmds (st.graph ++ (flushT t).written)) (List.foldl hsPush [] (flushT t).heads) with
-                | error e =>
-                  rw [hr] at hb
-                  cases e <;> simp at hb
-                | ok so =>
-                  obtain ⟨start, order⟩ := so
-                  rw [hr] at hb
-                  simp only at hb ⊢
-                  cases hs0 : stateOf (st.graph ++ (flushT t).written) start with
-                  | none => rw [hs0] at hb; simp at hb
-                  | some s0 =>
-                    rw [hs0] at hb
-                    simp only [Except.ok.injEq] at hb
-                    rw [stateOf_stored hok hs0]
-                    simp only
-                    rw [← applyOrderFx_fst, hb]
-end AranyaV.Trx
 
 namespace AranyaV.Converge
 open AranyaV.Spec AranyaV.Gen
@@ -405,6 +314,61 @@ theorem committed_facts_converge {gid₁ gid₂ : Nat} {ops₁ ops₂ : List Ara
   exact Except.ok.inj this
 
 
+/-- the policy's priority assignment: `Priority::Merge` for merge commands and only for them -/
+def PolicyPrio (c : Cmd) : Prop := isMerge c = true ↔ c.prio = Priority.merge
+
+theorem mergePrio_iff (g : Graph) : MergePrio g ↔ ∀ c ∈ g, PolicyPrio c := Iff.rfl
+
+/-- the inductive form `MergesOk` from its two halves -/
+theorem mergesOk_of {g : Graph} (hw : WF g) : MergeAnti g → MergeBraidOk g → MergesOk g := by
+  induction hw with
+  | nil => intro _ _; exact MergesOk.nil
+  | @snoc g c hw h1 h2 h3 h4 ih =>
+    intro ha' hb'
+    have hw' : WF (g ++ [c]) := WF.snoc hw h1 h2 h3 h4
+    have ha := ha'.restrict hw hw'
+    have hb : MergeBraidOk g := by
+      intro d hd l r e
+      obtain ⟨s, o, h⟩ := hb' d (List.mem_append_left _ hd) l r e
+      exact ⟨s, o, by rw [← refBraid_ext hw hw' (heads_of_merge hw ha hd e)]; exact h⟩
+    refine MergesOk.snoc (ih ha hb) ?_
+    intro l r e
+    have hh := heads_of_last hw hw' ha' e
+    obtain ⟨s, o, h⟩ := hb' c (by simp) l r e
+    exact ⟨hh.anti, s, o, by rw [← refBraid_ext hw hw' hh]; exact h⟩
+
+/-- **`MergesOk` is an invariant of the LTS** up to incomparability of merge parents: after any
+history, if every merge of the committed graph joins incomparable commands, every stored merge was
+accepted by its own braid (no `ParallelFinalize` at a stored merge) -/
+theorem run_mergesOk (gid : Nat) (ops : List AranyaV.Trx.Op) {st : AranyaV.Trx.Store}
+    (hst : (AranyaV.Trx.run { gid := gid } ops).store = some st)
+    (ha : MergeAnti (AranyaV.Trx.cmds st.graph)) : MergesOk (AranyaV.Trx.cmds st.graph) :=
+  mergesOk_of (AranyaV.Trx.commit_heads_frontier gid ops hst).2.2.2 ha
+    (AranyaV.Trx.run_store_good gid ops hst ha).2.1
+
+/-- **`replicas_converge_facts`.** For ANY two histories of the client LTS whose committed listings
+hold the same command set, the stored fact states agree — and each is `factsOf` of its listing, every
+stored per-command state is the reference state — with no per-commit hypothesis. -/
+theorem replicas_converge_facts {gid₁ gid₂ : Nat} {ops₁ ops₂ : List AranyaV.Trx.Op} {st₁ st₂ : AranyaV.Trx.Store}
+    (h₁ : (AranyaV.Trx.run { gid := gid₁ } ops₁).store = some st₁)
+    (h₂ : (AranyaV.Trx.run { gid := gid₂ } ops₂).store = some st₂)
+    (hset : (AranyaV.Trx.cmds st₁.graph).Perm (AranyaV.Trx.cmds st₂.graph))
+    (hprio : ∀ c ∈ AranyaV.Trx.cmds st₁.graph, PolicyPrio c) (hanti : MergeAnti (AranyaV.Trx.cmds st₁.graph)) :
+    st₁.facts = st₂.facts ∧ st₁.heads = st₂.heads ∧ synth st₁.heads = synth st₂.heads ∧
+    factsOf (AranyaV.Trx.cmds st₁.graph) st₁.heads = .ok st₁.facts ∧
+    factsOf (AranyaV.Trx.cmds st₂.graph) st₂.heads = .ok st₂.facts ∧
+    AranyaV.Trx.StoredOK st₁.graph ∧ AranyaV.Trx.StoredOK st₂.graph ∧
+    MergesOk (AranyaV.Trx.cmds st₁.graph) := by
+  have hw₁ := (AranyaV.Trx.commit_heads_frontier gid₁ ops₁ h₁).2.2.2
+  have hw₂ := (AranyaV.Trx.commit_heads_frontier gid₂ ops₂ h₂).2.2.2
+  obtain ⟨s1, _, f1⟩ := AranyaV.Trx.run_store_good gid₁ ops₁ h₁ hanti
+  obtain ⟨s2, _, f2⟩ := AranyaV.Trx.run_store_good gid₂ ops₂ h₂ (hanti.perm hw₁ hw₂ hset)
+  have hok := run_mergesOk gid₁ ops₁ h₁ hanti
+  obtain ⟨hh, _, hsy, _, _, _, hf, _⟩ := replicas_converge h₁ h₂ hset hprio hok
+  refine ⟨?_, hh, hsy, f1, f2, s1, s2, hok⟩
+  rw [f1, f2] at hf
+  exact Except.ok.inj hf
+
 /-! ## non-vacuity: a two-branch graph, built in two different orders -/
 namespace Ex
 open AranyaV.Trx
@@ -515,6 +479,46 @@ example : ∃ stA stB, (run { gid := 10 } histA).store = some stA ∧ (run { gid
   refine ⟨stA, stB, hA, hB, by rw [gAe]; rfl, by rw [gBe]; rfl, hAe, hBe, hsy, hf, ?_, m2, ?_⟩
   · rw [gAe, hAe]; rfl
   · rw [m1, gAe, hAe]; rfl
+
+/-! the same two replicas after the merge command `50 = merge(15, 21)` arrived on both: `MergeAnti` is
+not vacuous, and `replicas_converge_facts` gives equal *stored* facts, each the `factsOf` of its listing -/
+def mm : In := { cmd := { id := 50, parents := [15, 21], prio := .merge, body := [] }, pol := false }
+def gA2 : Graph := [i0.cmd, a1.cmd, b1.cmd, mm.cmd]
+def gB2 : Graph := [i0.cmd, b1.cmd, a1.cmd, mm.cmd]
+def histA2 : List AranyaV.Trx.Op := [.openT 0, .add 0 [i0, a1], .add 0 [b1], .add 0 [mm], .commit 0]
+def histB2 : List AranyaV.Trx.Op := [.openT 0, .add 0 [i0], .flush 0, .add 0 [b1, a1, b1, mm], .commit 0]
+
+theorem gA2_prio : ∀ c ∈ gA2, PolicyPrio c := by
+  intro c hc
+  simp only [gA2, List.mem_cons, List.not_mem_nil, or_false] at hc
+  rcases hc with rfl | rfl | rfl | rfl <;> simp [PolicyPrio, isMerge, i0, a1, b1, mm]
+
+theorem gA2_anti : MergeAnti gA2 := by
+  intro c hc l r e
+  simp only [gA2, List.mem_cons, List.not_mem_nil, or_false] at hc
+  rcases hc with rfl | rfl | rfl | rfl
+  · simp [i0] at e
+  · simp [a1] at e
+  · simp [b1] at e
+  · simp only [mm, List.cons.injEq, and_true] at e
+    obtain ⟨rfl, rfl⟩ := e
+    unfold Antichain; decide
+
+example : ∃ stA stB, (run { gid := 10 } histA2).store = some stA ∧ (run { gid := 10 } histB2).store = some stB ∧
+    (cmds stA.graph).map (·.id) = [10, 21, 15, 50] ∧ (cmds stB.graph).map (·.id) = [10, 15, 21, 50] ∧
+    stA.facts = stB.facts ∧ stA.heads = [50] ∧
+    factsOf (cmds stA.graph) stA.heads = .ok stA.facts ∧
+    stA.facts = { f := [(0, 0), (1, 1)], log := some ["b", "a"] } := by
+  obtain ⟨stA, hA, gAe, hAe⟩ := store_of (h := histA2) (g := gA2) (hs := [50]) (by rfl)
+  obtain ⟨stB, hB, gBe, hBe⟩ := store_of (h := histB2) (g := gB2) (hs := [50]) (by rfl)
+  have hset : (cmds stA.graph).Perm (cmds stB.graph) := by
+    rw [gAe, gBe]; exact List.Perm.cons _ (List.Perm.swap _ _ _)
+  obtain ⟨hf, _, _, f1, _⟩ :=
+    replicas_converge_facts hA hB hset (by rw [gAe]; exact gA2_prio) (by rw [gAe]; exact gA2_anti)
+  refine ⟨stA, stB, hA, hB, by rw [gAe]; rfl, by rw [gBe]; rfl, hf, hAe, f1, ?_⟩
+  have : factsOf gA2 [50] = .ok { f := [(0, 0), (1, 1)], log := some ["b", "a"] } := by rfl
+  rw [gAe, hAe, this] at f1
+  exact (Except.ok.inj f1).symm
 
 end Ex
 end AranyaV.Converge
